@@ -220,8 +220,9 @@ func c03Extension(t *rapid.T) (msg string, class string) {
 		m.Profile = sp(P1Name)
 	}
 	var own []*int64
+	present := drawOwnPresent(t, len(es.OwnKeys), "ext.own")
 	for i := range es.OwnKeys {
-		if genBool.Draw(t, fmt.Sprintf("ext.own%d", i)) {
+		if present[i] {
 			v := rapid.Int64Range(0, 1<<40).Draw(t, fmt.Sprintf("ext.own%d.val", i))
 			if extRuleBroken(&v) {
 				v = 14
